@@ -192,6 +192,7 @@ type Outcome struct {
 }
 
 type Exec struct {
+	rawKeys  bool // key-layout audit: key constructors are executed, not abstracted
 	prog     *Program
 	unit     *Unit
 	factSrc  map[*Term]string // provenance of labelled assumptions (for "by" hints)
